@@ -228,6 +228,9 @@ class Current(VC):
         resolve(ctx, qa, U)
         o, w = q_member(I, ctx, crate, st, qa, NONE)
         ob.outcome = o
+        ob.info["replay"] = dict(contract=crate, entry="query", crate=crate, env=mk_env(I, ctx), info=None, msg=EnumV("QueryMsg", "Member", [qa, NONE], ["addr", "at_height"]),
+                                 msg_ty="msg::QueryMsg", pre_storage=st, post_storage=st, outcome=o, result=Struct("MemberResponse", [w], ["weight"]) if o == "Ok" else None,
+                                 result_ty="cw4::MemberResponse", querier=None)
         if o != "Ok": return
         p, v = st["members"].get(ctx, (qa,))
         wv = lazy_forced(ctx, w)
